@@ -159,8 +159,21 @@ def run(ctx: Ctx):
         applied = [c for c in walk_no_nested(gc.node) if isinstance(c, ast.Call) and isinstance(c.func, ast.Name) and c.func.id in gdeps and "format" in gdeps.get(c.func.id, set())]
         ctx.check(okf and bool(applied), "R18.a", gc.key("formatter"), "the requested formatter is looked up and applied to the result", f"{short}::get_code does not apply the formatter selected by `format` to the generated code", gc.where())
         if short.endswith("gotran2py.py"):
-            conds = fl.condition_params(gc)
-            ctx.check("backend" in conds, "R18.a", gc.key("backend"), "backend selects the generator class", "gotran2py.get_code: `backend` does not select the generator class", gc.where())
+            from sa import te
+
+            members = common.enum_values(ctx, "cli/gotran2py.py", "Backend")
+            pe = te.PEval(sm.module("cli/gotran2py.py"), distinct={f"Backend.{m}" for m in members})
+            want = {"numpy": "PythonCodeGenerator", "jax": "JaxCodeGenerator"}
+            callee = ctor[0].func.id if isinstance(ctor[0].func, ast.Name) else None
+            for m in members:
+                env = pe.env_before(gc.node, {"backend": te.atom(f"Backend.{m}")}, ctor[0])
+                got = None
+                if isinstance(env, dict) and callee is not None:
+                    got = env.get(callee, te.atom(callee))
+                    got = got[1] if got[0] == "atom" else got
+                ctx.check(m in want and got == want[m], "R18.a", gc.key(f"backend::{m}"), f"backend {m} -> {want.get(m)}", f"gotran2py.get_code: backend `{m}` constructs `{got}` (expected {want.get(m)})" if env is not None else f"gotran2py.get_code: the selection of the generator class for backend `{m}` is not understood", gc.where())
+            env = pe.env_before(gc.node, {"backend": ("const", "<something else>")}, ctor[0])
+            ctx.check(isinstance(env, tuple) and env[0] == "raise", "R18.a", gc.key("backend::<other>"), "an unknown backend is rejected", "gotran2py.get_code: an unknown backend does not raise", gc.where())
             sh = call_kw(ctor[0], "shape")
             ctx.check(sh is not None and "shape" in fl.expr_params(sh, gdeps), "R18.a", gc.key("ctor::shape"), "shape reaches the generator", "gotran2py.get_code does not pass shape to the generator", gc.where())
 
